@@ -29,8 +29,10 @@ import (
 	"strconv"
 	"strings"
 	"sync"
+	"sync/atomic"
 	"testing"
 	"time"
+	"unsafe"
 
 	"github.com/EdgeCast/vflow/ipfix"
 	netflow5 "github.com/EdgeCast/vflow/netflow/v5"
@@ -186,9 +188,11 @@ func plAdapter(proto string, size int) plProto {
 				}
 			},
 			mdrain: func() (out [][]byte) {
+				plMirSrc = plMirSrc[:0]
 				for len(ipfixMCh) > 0 {
 					m := <-ipfixMCh
 					out = append(out, m.body)
+					plMirSrc = append(plMirSrc, append(net.IP{}, m.raddr.IP...)) // what the mirror worker would put into the packet NOW
 				}
 				return
 			},
@@ -302,9 +306,11 @@ func plAdapter(proto string, size int) plProto {
 				}
 			},
 			mdrain: func() (out [][]byte) {
+				plMirSrc = plMirSrc[:0]
 				for len(sFlowMCh) > 0 {
 					m := <-sFlowMCh
 					out = append(out, m.body)
+					plMirSrc = append(plMirSrc, append(net.IP{}, m.raddr.IP...))
 				}
 				return
 			},
@@ -341,16 +347,30 @@ func plAdapter(proto string, size int) plProto {
 // workers are parked or idle when the driver looks
 func plCounter(stats interface{}, name string, set *uint64) uint64 {
 	f := reflect.ValueOf(stats).Elem().FieldByName(name)
-	if set != nil {
-		if f.OverflowUint(*set) {
-			f.SetUint(*set & (1<<uint(f.Type().Bits()) - 1))
-		} else {
-			f.SetUint(*set)
+	p := unsafe.Pointer(f.UnsafeAddr())
+	switch f.Kind() {
+	case reflect.Uint64:
+		if set != nil {
+			atomic.StoreUint64((*uint64)(p), *set)
+			return *set
 		}
+		return atomic.LoadUint64((*uint64)(p))
+	case reflect.Uint32:
+		if set != nil {
+			atomic.StoreUint32((*uint32)(p), uint32(*set))
+			return *set
+		}
+		return uint64(atomic.LoadUint32((*uint32)(p)))
+	}
+	if set != nil {
+		f.SetUint(*set & (1<<uint(f.Type().Bits()) - 1))
 		return *set
 	}
 	return f.Uint()
 }
+
+// plMirSrc: the exporter addresses of the copies the last mdrain took out (as they read at that moment)
+var plMirSrc []net.IP
 
 func plClass(rejected bool, err error) string {
 	if rejected {
@@ -484,18 +504,41 @@ func plRun(job plJob) (res plResult) {
 	waiting := 0                   // workers blocked on the empty queue
 	ev := func(e plEvent) { res.Events = append(res.Events, e) }
 	// what the mirror workers do with the queued copies: take them, send them, give the buffer back
+	// (a mirror that lags: the copies stay queued for a while - what they say when they are finally sent is what counts)
+	srcOf := map[string]string{}
+	for _, d := range append(append([]plDgram{}, job.Templates...), job.Data...) {
+		b := plBytes(d.Buf)
+		if len(b) > job.UDPSize {
+			b = b[:job.UDPSize]
+		}
+		if _, dup := srcOf[string(b)]; !dup {
+			srcOf[string(b)] = string(plBytes(d.Exp))
+		} else if srcOf[string(b)] != string(plBytes(d.Exp)) {
+			srcOf[string(b)] = "*" // the same octets from two exporters: either is right
+		}
+	}
+	mirrorLag := 0
 	mirrorOut := func() {
 		if job.Mirror != "on" || ad.mdrain == nil {
 			return
 		}
-		for _, b := range ad.mdrain() {
+		if mirrorLag > 0 && len(ipfixMCh)+len(sFlowMCh) < 6 {
+			mirrorLag--
+			return
+		}
+		mirrorLag = rng.Intn(4)
+		for k, b := range ad.mdrain() {
 			n := 0
-			if known[string(b)] {
-				n = 1
+			if want, ok := srcOf[string(b)]; ok && known[string(b)] && (want == "*" || want == string(plMirSrc[k])) {
+				n = 1 // a received datagram, under its own exporter's address
 			}
 			ev(plEvent{Ev: "MirOut", B: idOf(b), N: n})
 			ad.pool.Put(b[:job.UDPSize])
 		}
+	}
+	mirrorFlush := func() {
+		mirrorLag = 0
+		mirrorOut()
 	}
 
 	probe := func() {
@@ -878,6 +921,7 @@ func plRun(job plJob) (res plResult) {
 	}
 	for consume() {
 	}
+	mirrorFlush()
 	res.Decoded = moved()
 	ev(plEvent{Ev: "End", N: int(res.Decoded)})
 	return
